@@ -318,3 +318,91 @@ package table
 //@   ensures result != nil ==> (result.Status == oc.RPKI_VALIDATION_RESULT_TYPE_VALID <==> len(result.Matched) != 0)
 //@   ensures result != nil ==> (result.Status == oc.RPKI_VALIDATION_RESULT_TYPE_INVALID <==> len(result.Matched) == 0 && (len(result.UnmatchedAs) != 0 || len(result.UnmatchedLength) != 0))
 //@   ensures result != nil ==> (result.Status == oc.RPKI_VALIDATION_RESULT_TYPE_NOT_FOUND <==> len(result.Matched) == 0 && len(result.UnmatchedAs) == 0 && len(result.UnmatchedLength) == 0)
+
+// =============================================================================================
+// C10 — applying policy never changes the route as stored or as seen by any other peer
+// =============================================================================================
+//@ props C10
+
+// The policy actions work on a clone; what they may write is the clone's own attribute bookkeeping.
+// `no-alias-writes`: an append into spare capacity of memory that is neither fresh nor listed in `modifies`
+// would be visible through every other route sharing that backing array (the stored route, other peers' copies).
+//@ func (*Path).setPathAttr
+//@   requires path != nil
+//@   claims frame alias bounds
+//@   no-alias-writes
+//@   modifies path.pathAttrs, path.attrsHash, path.pathAttrs[:cap]
+//@ func (*Path).delPathAttr
+//@   requires path != nil
+//@   claims frame alias bounds
+//@   no-alias-writes
+//@   modifies path.dels, path.attrsHash, path.dels[:cap]
+
+
+//@ func (*Path).SetCommunities
+//@   requires path != nil
+//@   claims frame alias
+//@   no-alias-writes
+//@   assume-callee-frames
+//@   modifies path.pathAttrs, path.dels, path.attrsHash, path.pathAttrs[:cap], path.dels[:cap]
+//@ func (*Path).SetLargeCommunities
+//@   requires path != nil
+//@   claims frame alias
+//@   no-alias-writes
+//@   assume-callee-frames
+//@   modifies path.pathAttrs, path.dels, path.attrsHash, path.pathAttrs[:cap], path.dels[:cap]
+//@ func (*Path).SetExtCommunities
+//@   requires path != nil
+//@   claims frame alias
+//@   no-alias-writes
+//@   assume-callee-frames
+//@   modifies path.pathAttrs, path.dels, path.attrsHash, path.pathAttrs[:cap], path.dels[:cap]
+//@ func (*Path).SetIP6ExtCommunities
+//@   requires path != nil
+//@   claims frame alias
+//@   no-alias-writes
+//@   assume-callee-frames
+//@   modifies path.pathAttrs, path.dels, path.attrsHash, path.pathAttrs[:cap], path.dels[:cap]
+
+// ---- evaluation order of the documented policy model ---------------------------------------------
+//@ func (*Path).Clone
+//@   requires path != nil
+//@   modifies nothing
+//@   ensures result != nil && fresh(result) && result.parent == path && result.IsWithdraw == isWithdraw
+//@ func (*Statement).Evaluate
+//@   pure
+//@   spec-only
+
+// a modification action returns the route it was given (modified in place) or a new route
+// (RoutingAction, which returns nil for reject, is the route action of a statement and never a modification action;
+//  OriginAction returns nil together with an error for an origin value that its constructor rejects)
+//@ interface Action.Apply
+//@   requires arg0 != nil
+//@   ensures result0 == arg0 || (result0 != nil && fresh(result0))
+//@   unverified RoutingAction AsPathPrependAction OriginAction
+
+// from C10: "a statement applies when all its conditions hold ... modifications accumulate" and "never mutates
+// shared routes": a statement that does not apply leaves the route alone; modifications go to a fresh clone
+//@ func (*Statement).Apply
+//@   requires s != nil && path != nil
+//@   claims at-call at-return inv-init inv-keep
+//@   loop 0 invariant fresh(path)
+//@   at-call action.Apply( requires fresh(path)
+//@   at-return requires !result ==> ret0 == ROUTE_TYPE_NONE && ret1 == path0
+//@   at-return requires ret0 == ROUTE_TYPE_NONE || ret0 == ROUTE_TYPE_ACCEPT || ret0 == ROUTE_TYPE_REJECT
+
+// from C10: "policies and statements in order; ... the first accept/reject decides"
+//@ func (*Policy).Apply
+//@   requires p != nil
+//@   claims step at-return
+//@   loop 0 step result == ROUTE_TYPE_NONE
+//@   at-return requires ret0 != ROUTE_TYPE_NONE ==> ret0 == result
+
+// from C10: "otherwise the assignment's default applies"; reject yields no route
+//@ func (*RoutingPolicy).ApplyPolicy
+//@   requires r != nil
+//@   claims at-call at-return step
+//@   loop 0 step result == ROUTE_TYPE_NONE
+//@   at-call r.getDefaultPolicy( requires result == ROUTE_TYPE_NONE
+//@   at-return requires before == nil ==> ret0 == nil
+//@   at-return requires before != nil && !old(before.IsWithdraw) ==> (result == ROUTE_TYPE_ACCEPT ==> ret0 == after) && (result != ROUTE_TYPE_ACCEPT ==> ret0 == nil)
